@@ -436,7 +436,8 @@ def proc_rest(rnd, d=0) -> str:
             parts.append(o + proc_rest(rnd, d + 1) + c)
     out = ""
     for p in parts:
-        out += (rnd.choice([" ", "  ", "\t", "   "]) if out else "") + p
+        # (the separator may be a line end: the macro's bracket keeps the text going, and the text is passed on verbatim)
+        out += (rnd.choice([" ", "  ", "\t", "   ", " ", "  ", "\n", "\n    ", " \n"]) if out else "") + p
     return out
 
 
@@ -445,10 +446,10 @@ def proc_macro_case(rnd):
     pre = [rnd.choice(["sudo", "env", "-n", "time"]) for _ in range(rnd.choice([0, 0, 1, 2]))]
     cmd = rnd.choice(["echo", "bash", "git", "python3", "ls"])
     rest = proc_rest(rnd).replace("#h", "h")
-    lead = rnd.choice([" ", " ", "  ", "\t", ""])
+    lead = rnd.choice([" ", " ", "  ", "\t", "", "\n    ", " \n"])
     if rest[:1] in ("(", "["):
         lead = lead or " "  # 'cmd!(' / 'cmd![' would be another construct
-    trail = rnd.choice(["", "", " ", "  "])
+    trail = rnd.choice(["", "", " ", "  ", "\n", " \n  "])
     if rest == "" and rnd.random() < 0.5:
         lead = trail = ""  # a bare 'cmd!' with nothing at all after the bang
     text = o + "".join(p + " " for p in pre) + cmd + "!" + lead + rest + trail + c
